@@ -55,13 +55,21 @@ inductive Obs where
   | loginReply (n : Nat)        -- `login()` consumed message `n` as the reply to its request
   deriving DecidableEq, Repr, Inhabited
 
+/-- how a user call that ran the close body ends -/
+inductive CRes where
+  | ok | refused | cancelled
+  deriving DecidableEq, Repr, Inhabited
+
+def CRes.toRes : CRes → Res
+  | .ok => .ok | .refused => .refused | .cancelled => .cancelled
+
 /-- what the closer does once `close()` returns to it -/
 inductive Cont where
   | readerTail               -- Reader.stop tail: `_stopped = True`, back to the poll loop
   | handlerTail (n : Nat)    -- rest of the message handler, back to the dispatcher loop
   | monitorTail              -- remote monitor: `break`
   | closingTail              -- the closing task ends
-  | userTail (u : Nat) (r : Res)   -- a user call returns / raises `r`
+  | userTail (u : Nat) (r : CRes)  -- a user call returns / raises `r`
   deriving DecidableEq, Repr, Inhabited
 
 inductive Status where
@@ -127,8 +135,9 @@ structure St where
   wire : List Frame := []         -- every complete frame received so far
   consumed : List Frame := []     -- frames the reader has taken out of its buffer
   recvd : List Nat := []          -- messages the reader has put on the queue
-  lost : List Nat := []           -- messages dropped by a late cancel of a receive (known finding)
-  taken : List Nat := []          -- messages handed to a consumer: message callback entered, receive returned, login reply consumed
+  gone : List (Nat × Bool) := []  -- messages that left the queue for good, in order: `(n, true)` handed to a consumer (message
+                                  -- callback entered, receive returned, login reply consumed), `(n, false)` dropped by a late
+                                  -- cancel of a receive (known finding)
   deriving Inhabited
 
 inductive Ev where
@@ -145,6 +154,11 @@ inductive Ev where
   | callSend                       -- user: send an application message
   | cancel (u : Nat)               -- the user cancels task u
   deriving DecidableEq, Repr, Inhabited
+
+/-- messages handed to a consumer, in order -/
+def St.taken (s : St) : List Nat := (s.gone.filter (·.2)).map (·.1)
+/-- messages dropped by a late cancel -/
+def St.lost (s : St) : List Nat := (s.gone.filter (fun p => !p.2)).map (·.1)
 
 /-! ### small state algebra -/
 
@@ -228,7 +242,7 @@ def runCont (s : St) (t : Tid) : Cont → St
       { ((s.emit (.msgExit n)).setStatus t .ready).setProg t .dispLoop with imm := some t }
   | .monitorTail => s.finish t
   | .closingTail => s.finish t
-  | .userTail u r => (s.emit (.ret u r)).finish t
+  | .userTail u r => (s.emit (.ret u r.toRes)).finish t
 
 /-- the end of the close body: `transport.close()`, then the user's close callback -/
 def closeTail (cfg : Cfg) (s : St) (t : Tid) (c : Cont) : St :=
@@ -324,9 +338,10 @@ def dispHandle (cfg : Cfg) (s : St) (n : Nat) : St :=
 /-- the dispatcher takes one message (or suspends / ends) -/
 def stepDisp (cfg : Cfg) (s : St) : St :=
   if s.qClosed then s.finish .D
+  else if s.rcvBusy || s.vres.isSome then s     -- a dispatcher next to a pending receive: API misuse, outside the model
   else match s.queue with
     | [] => s.setStatus .D .waitQ
-    | n :: q => dispHandle cfg (({ s with queue := q, taken := s.taken ++ [n] }).emit (.msgEnter n)) n
+    | n :: q => dispHandle cfg (({ s with queue := q, gone := s.gone ++ [(n, true)] }).emit (.msgEnter n)) n
 
 /-- a heartbeat monitor tick -/
 def stepMon (cfg : Cfg) (s : St) (isLocal : Bool) : St :=
@@ -341,7 +356,7 @@ def stepMon (cfg : Cfg) (s : St) (isLocal : Bool) : St :=
 def loginResume (cfg : Cfg) (s : St) (t : Tid) (u : Nat) : St :=
   match s.vres with
   | some n =>
-      let s := ({ s with vres := none, rcvBusy := false, taken := s.taken ++ [n] } : St).emit (.loginReply n)
+      let s := ({ s with vres := none, rcvBusy := false, gone := s.gone ++ [(n, true)] } : St).emit (.loginReply n)
       if n = 0 && !(s.closed || s.closingTask) then
         -- accepted: heartbeats, dispatching, return the session
         (((s.startHeartbeats).startDispatching cfg).emit (.ret u .ok)).finish t
@@ -361,17 +376,17 @@ def stepRun (cfg : Cfg) (s : St) (t : Tid) : St :=
     -- CancelledError delivered at the task's current await
     match s.prog t with
     | .handler n _ => (s.emit (.msgAbandon n)).finish t      -- raised into the user's handler; dispatcher breaks
-    | .vget => ({ s with vres := none }).finish t
+    | .vget => s.finish t                                    -- the helper task ends cancelled, holding nothing
     | .recvWait u =>
         -- `except CancelledError` in `_blocking_read`: EndOfQueue if the queue was stopped meanwhile, else re-raise.
         -- Late cancel (the helper already holds a message): the caller gets the cancellation, the message is lost.
         if s.vres.isNone && s.qClosed then ({ s with rcvBusy := false }.emit (.ret u .eoq)).finish t
-        else ({ s with vres := none, rcvBusy := false, lost := s.lost ++ s.vres.toList }.emit (.ret u .cancelled)).finish t
+        else ({ s with vres := none, rcvBusy := false, gone := s.gone ++ s.vres.toList.map (fun n => (n, false)) }.emit (.ret u .cancelled)).finish t
     | .loginWait u =>
         if s.vres.isNone && s.qClosed then ({ s with rcvBusy := false }.emit (.ret u .refused)).finish t
         else
           -- `login()`: `except CancelledError: await self.close(); raise`
-          enterClose cfg ({ s with vres := none, rcvBusy := false, lost := s.lost ++ s.vres.toList }.setStatus t .ready) t (.userTail u .cancelled)
+          enterClose cfg ({ s with vres := none, rcvBusy := false, gone := s.gone ++ s.vres.toList.map (fun n => (n, false)) }.setStatus t .ready) t (.userTail u .cancelled)
     | .inClose => stepInClose cfg s t true
     | _ => s.finish t                                          -- reader / dispatcher / monitors end
   | .ready =>
@@ -389,11 +404,13 @@ def stepRun (cfg : Cfg) (s : St) (t : Tid) : St :=
     | .vget =>
         match s.queue with
         | [] => s.setStatus t .waitQ
-        | n :: q => ({ s with queue := q, vres := some n }).finish t
+        | n :: q =>
+            if s.vres.isSome then s      -- unreachable (one receive at a time); keeps the message-flow invariant local
+            else ({ s with queue := q, vres := some n }).finish t
     | .recvWait u =>
         -- woken because the helper task finished
         match s.vres with
-        | some n => ({ s with vres := none, rcvBusy := false, taken := s.taken ++ [n] }.emit (.ret u (.msg n))).finish t
+        | some n => ({ s with vres := none, rcvBusy := false, gone := s.gone ++ [(n, true)] }.emit (.ret u (.msg n))).finish t
         | none =>
             -- the helper was cancelled: by `queue.stop()` (→ EndOfQueue) or because the caller was
             if s.qClosed then ({ s with rcvBusy := false }.emit (.ret u .eoq)).finish t
@@ -408,7 +425,7 @@ def runnable (s : St) (t : Tid) : Bool :=
 
 /-- `receive_msg()` / the receive inside `login()` started by user task `u` -/
 def startRecv (s : St) (u : Nat) (isLogin : Bool) : St :=
-  if s.rcvBusy || alive (s.status .V) then s   -- a receive is already pending: two concurrent receives are API misuse, outside the model
+  if s.rcvBusy || s.vres.isSome || alive (s.status .V) then s   -- a receive is already pending: two concurrent receives are API misuse, outside the model
   else if s.dispSet then (s.emit (.ret u .state)).setStatus (.U u) .done
   else match s.queue with
     | n :: q =>
@@ -439,9 +456,10 @@ def step (cfg : Cfg) (s : St) : Ev → St
   | .callLogout => ({ (s.emit (.write .logout)) with pingL := true }).initiateClose
   | .callRecv u => if s.status (.U u) != .absent then s else startRecv s u false
   | .callRecvNowait u =>
-      if s.dispSet then s.emit (.ret u .state)
+      if s.rcvBusy || s.vres.isSome then s        -- `receive_msg_nowait()` next to a pending receive: API misuse, outside the model
+      else if s.dispSet then s.emit (.ret u .state)
       else match s.queue with
-        | n :: q => { s with queue := q, taken := s.taken ++ [n] }.emit (.ret u (.msg n))
+        | n :: q => { s with queue := q, gone := s.gone ++ [(n, true)] }.emit (.ret u (.msg n))
         | [] => if s.qClosed then s.emit (.ret u .eoq) else s.emit (.ret u .none)
   | .callLogin u =>
       if s.status (.U u) != .absent || s.rcvBusy || alive (s.status .V) then s
